@@ -33,64 +33,49 @@ def MAXC : Nat := Gen.C04.MAX_COUNT
 
 /-! ## compilation of a parsed tree (what `new_op / op_count_* / op_gstart / op_gend` build) -/
 
-def branchesOf : Re → List Re
-  | .alt a b => a :: branchesOf b
-  | r => [r]
-
-def itemsOf : Re → List Re
-  | .cat a b => a :: itemsOf b
-  | r => [r]
-
-mutual
-/-- one item of a branch; `n` = groups opened so far (`re_nsub`); returns the op and new `n` -/
-def compItem : Nat → Re → Nat → Nat → Nat → Option (COp × Nat)
-  | 0, _, _, _, _ => none
-  | _ + 1, .chr c, mn, mx, n => some (.chr c mn mx, n)
-  | _ + 1, .any, mn, mx, n => some (.any mn mx, n)
-  | _ + 1, .cls bm, mn, mx, n => some (.cls bm mn mx, n)
-  | _ + 1, .bol, _, _, n => some (.bol, n)
-  | _ + 1, .eol, _, _, n => some (.eol, n)
-  | f + 1, .group body, mn, mx, n =>
-      match compAlts f (if body = .empty then [] else branchesOf body) (n + 1) with
-      | some (alts, n') => some (.group (n + 1) (if body = .empty then [[]] else alts) mn mx, n')
+/-- Structural compiler.  The result is always an OR-list: an item yields `[[op]]`, a branch
+`[ops]`, an alternation all its branches; `mn mx` are the counts to put on the item (`1 1`
+unless it is the body of a `rep`); `n` = groups opened so far (`re_nsub`).  Trees that are not in
+the parser's shape (alternation inside a concatenation without a group, nested `rep`, …) yield
+`none`. -/
+def compR : Re → Nat → Nat → Nat → Option (List (List COp) × Nat)
+  | .empty, _, _, n => some ([[]], n)
+  | .chr c, mn, mx, n => some ([[.chr c mn mx]], n)
+  | .any, mn, mx, n => some ([[.any mn mx]], n)
+  | .cls bm, mn, mx, n => some ([[.cls bm mn mx]], n)
+  | .bol, _, _, n => some ([[.bol]], n)
+  | .eol, _, _, n => some ([[.eol]], n)
+  | .group body, mn, mx, n =>
+      match compR body 1 1 (n + 1) with
+      | some (alts, n') => some ([[.group (n + 1) alts mn mx]], n')
       | none => none
-  | f + 1, .rep r m k, _, _, n =>
+  | .rep r m k, _, _, n =>
       match r with
-      | .rep _ _ _ => none
-      | _ => compItem f r m (k.getD MAXC) n
-  | _ + 1, _, _, _, _ => none
-def compBranch : Nat → List Re → Nat → Option (List COp × Nat)
-  | 0, _, _ => none
-  | _ + 1, [], n => some ([], n)
-  | f + 1, x :: xs, n =>
-      match compItem f x 1 1 n with
-      | none => none
-      | some (op, n1) =>
-        match compBranch f xs n1 with
-        | none => none
-        | some (ops, n2) => some (op :: ops, n2)
-def compAlts : Nat → List Re → Nat → Option (List (List COp) × Nat)
-  | 0, _, _ => none
-  | _ + 1, [], n => some ([], n)
-  | f + 1, b :: bs, n =>
-      match compBranch f (itemsOf b) n with
-      | none => none
-      | some (ops, n1) =>
-        match compAlts f bs n1 with
-        | none => none
-        | some (alts, n2) => some (ops :: alts, n2)
-end
-
-def reSize : Re → Nat
-  | .cat a b => reSize a + reSize b + 1
-  | .alt a b => reSize a + reSize b + 1
-  | .rep r _ _ => reSize r + 1
-  | .group r => reSize r + 1
-  | _ => 1
+      | .chr c => some ([[.chr c m (k.getD MAXC)]], n)
+      | .any => some ([[.any m (k.getD MAXC)]], n)
+      | .cls bm => some ([[.cls bm m (k.getD MAXC)]], n)
+      | .group body =>
+          match compR body 1 1 (n + 1) with
+          | some (alts, n') => some ([[.group (n + 1) alts m (k.getD MAXC)]], n')
+          | none => none
+      | _ => none
+  | .cat a b, _, _, n =>
+      match compR a 1 1 n with
+      | some ([[op]], n1) =>
+          match compR b 1 1 n1 with
+          | some ([ops], n2) => some ([op :: ops], n2)
+          | _ => none
+      | _ => none
+  | .alt a b, _, _, n =>
+      match compR a 1 1 n with
+      | some ([opsA], n1) =>
+          match compR b 1 1 n1 with
+          | some (altsB, n2) => some (opsA :: altsB, n2)
+          | none => none
+      | _ => none
 
 /-- group #0 with the whole pattern as its body -/
-def compileOps (r : Re) : Option (List (List COp) × Nat) :=
-  compAlts (4 * reSize r + 8) (branchesOf r) 0
+def compileOps (r : Re) : Option (List (List COp) × Nat) := compR r 1 1 0
 
 /-! ## execution state -/
 
